@@ -21,10 +21,11 @@ META = {
     "as a value that conforms to the declared type, element types included (C20_sound_partial, C20_field_sound_partial for the "
     "attrs converter of make_converter); a str is only passed through, turned into a path-like atom or wrapped whole by "
     "MultiInputObj, and a container is never stored as a str (C20_no_str_split_partial, C20_no_seq_join_partial); coercing the "
-    "stored value again returns it unchanged for union-free types (C20_idem_partial_unionFree); a rejected value is rejected by the "
+    "stored value again returns it unchanged whenever every Union node met by the value is stable (C20_idem_partial_stableUnions; "
+    "the complement of that decidable hypothesis is finding D13u; C20_idem_partial_unionFree is the union-free corollary); a rejected value is rejected by the "
     "assignment itself and leaves the attribute unchanged (C20_reject_at_assignment).  The partial theorems carry explicit "
     "decidable exclusions for the findings D13 (str split by set / abstract-sequence patterns), D13b (set joined into a str), "
-    "the bytes restriction (D13c) and, for idempotence, unions (D13u); witness theorems C20_witness_* and "
+    "the bytes restriction (D13c) and, for idempotence, unstable union nodes (D13u); witness theorems C20_witness_* and "
     "C20_full_statement_false show the full statement fails on the pinned tree.  The table-level reasons (C20_tables_strSafe, "
     "C20_tables_noJoin) are re-proved by `decide` over the issubclass matrix and COERCIBLE/NOT_COERCIBLE tables dumped from the "
     "running interpreter on every run.  The model is tied to the code by running TypeParser(T, superclass_auto_cast)(v) twice "
@@ -32,7 +33,7 @@ META = {
     "call the model makes is re-checked against the interpreter (one rfl theorem per observed call).",
     "note": "Trusted: Lean kernel; hand-written model of coerce/expand_and_coerce (tie = differential + regenerated class tables + "
     "constructor samples + AST facts of make_converter); class universe is finite (no fileformats/numpy classes, no ty.Type, no "
-    "NOTHING/LazyField/StateArray pass-through); generator reach (type depth <= 3); idempotence is proved for union-free types only.",
+    "NOTHING/LazyField/StateArray pass-through); generator reach (type depth <= 3).",
     "rule": "case = (superclass_auto_cast, type, value); distinct by canonical JSON; non-trivial = the type is generic/union or the "
     "value is a container or the stored value differs from the assigned one",
     "assumptions": [
@@ -54,6 +55,7 @@ OBLIGATIONS = [
         "C20_no_str_split_partial",
         "C20_no_seq_join_partial",
         "C20_idem_partial_unionFree",
+        "C20_idem_partial_stableUnions",
         "C20_tables_strSafe",
         "C20_tables_noJoin",
         "C20_witness_set",
@@ -65,7 +67,7 @@ OBLIGATIONS = [
     )
 ]
 LEAN_TARGETS = ["PydraModel.Props.C20", "PydraModel.Gen.TypeCtorSamples"]
-MODEL_TARGETS = ["PydraModel.Typing.Model", "PydraModel.Typing.Defects", "PydraModel.Typing.Static2", "PydraModel.DriverUtil"]
+MODEL_TARGETS = ["PydraModel.Typing.Model", "PydraModel.Typing.Defects", "PydraModel.Typing.Static2", "PydraModel.Typing.IdemU", "PydraModel.DriverUtil"]
 EXTRACTORS = [typing_tables]
 
 # --------------------------------------------------------------------------------------
@@ -172,9 +174,11 @@ def run_cases(ctx, cases, what="TypeParser.__call__"):
         ok, why = classify(c["t"], c["v"], impl, pys[k], rpys[k])
         # match rules (Python side); the Lean side must agree on them
         m13, m13b = te.d13_match(c["t"], c["v"]), te.d13b_match(c["t"], c["v"])
+        # D13u (decided with the real parser on the union alternatives) against Lean's `d13u` (decided with the model)
+        m13u = te.ty_has_union(c["t"]) and te.d13u_match(c["sac"], c["t"], c["v"])
         if a is not None:
-            impl = dict(impl, d13=m13, d13b=m13b)
-            model = dict(model, d13=a["d13"], d13b=a["d13b"])
+            impl = dict(impl, d13=m13, d13b=m13b, d13u=m13u)
+            model = dict(model, d13=a["d13"], d13b=a["d13b"], d13u=a["d13u"])
         defect = None
         if not ok:
             if m13:
@@ -199,7 +203,7 @@ def run_cases(ctx, cases, what="TypeParser.__call__"):
 def other_defect(c, why, impl):
     if why == "nonconforming" and te.d13c_match(c["sac"], c["t"], c["v"]):
         return "D13c"
-    if why == "not-idempotent" and te.d13u_match(c["sac"], c["t"], c["v"]):
+    if why == "not-idempotent" and impl.get("d13u"):
         return "D13u"
     return None
 
